@@ -2162,7 +2162,11 @@ class RemoteRepository(_mod_repository.Repository, _RpcHelper, lock._RelockDebug
         """
         if self._real_repository:
             self._ensure_real()
-            return self._real_repository.commit_write_group()
+            result = self._real_repository.commit_write_group()
+            # The commit may have added keys that were previously cached as
+            # missing (the smart path below resets the cache in refresh_data).
+            self._unstacked_provider.missing_keys.clear()
+            return result
         if not self.is_in_write_group():
             raise errors.BzrError("not in write group")
         path = self.controldir._path_for_remote_call(self._client)
